@@ -28,13 +28,14 @@ from thewalrus.symplectic import sympmat, xpxp_to_xxpp
 def takagi(N, tol=1e-13, rounding=13):
     r"""Autonne-Takagi decomposition of a complex symmetric (not Hermitian!) matrix.
 
-    Note that singular values of N are considered equal if they are equal after np.round(values, tol).
+    Degenerate and nearly degenerate singular values are handled without grouping them: the
+    phase correction is computed for the whole singular subspace at once.
 
     See :cite:`cariolaro2016` and references therein for a derivation.
 
     Args:
         N (array[complex]): square, symmetric matrix N
-        rounding (int): the number of decimal places to use when rounding the singular values of N
+        rounding (int): the number of decimal places to which the returned singular values are rounded
         tol (float): the tolerance used when checking if the input matrix is symmetric: :math:`|N-N^T| <` tol
 
     Returns:
@@ -70,34 +71,22 @@ def takagi(N, tol=1e-13, rounding=13):
     w = np.transpose(np.conjugate(ws))
     rl = np.round(l, rounding)
 
-    # Generate list with degenerancies
-    result = []
-    for k, g in groupby(rl):
-        result.append(list(g))
+    # For a symmetric N the unitary q = v^T w commutes with the singular values and the Takagi
+    # unitary is U = v conj(sqrt(q)), for any square root that is a function of q. Taking the
+    # root of the whole matrix handles degenerate and nearly degenerate singular values alike
+    # (grouping them by their rounded values would separate e.g. 1 - 4e-14 from 1 + 4e-14, or two
+    # equal values that sit on a rounding boundary, and lose the correction of their common subspace).
+    q = np.transpose(v) @ w
 
-    # Generate lists containing the columns that correspond to degenerancies
-    kk = 0
-    for k in result:
-        for ind, j in enumerate(k):  # pylint: disable=unused-variable
-            k[ind] = kk
-            kk = kk + 1
+    # sqrtm returns the principal root, which is ill defined for eigenvalues on both sides of the
+    # negative real axis; rotate q so that the branch cut lies in the largest gap of its spectrum.
+    angles = np.sort(np.angle(np.linalg.eigvals(q)))
+    gaps = np.diff(np.append(angles, angles[0] + 2 * np.pi))
+    k = np.argmax(gaps)
+    theta = angles[k] + gaps[k] / 2 - np.pi
+    qs = np.exp(1j * theta / 2) * sqrtm(np.exp(-1j * theta) * q)
 
-    # Generate the lists with the degenerate column subspaces
-    vas = []
-    was = []
-    for i in result:
-        vas.append(v[:, i])
-        was.append(w[:, i])
-
-    # Generate the matrices qs of the degenerate subspaces
-    qs = []
-    for i in range(len(result)):
-        qs.append(sqrtm(np.transpose(vas[i]) @ was[i]))
-
-    # Construct the Takagi unitary
-    qb = block_diag(*qs)
-
-    U = v @ np.conj(qb)
+    U = v @ np.conj(qs)
     return rl, U
 
 
